@@ -149,9 +149,13 @@ func (x *explorer) run(g *group, m int, si int, h []step) (w *world) {
 		f := x.viol[w.fail.Sig]
 		if f == nil || len(h) < f.len {
 			x.viol[w.fail.Sig] = &found{what: fmt.Sprintf("[%s, MaxBatchSize=%d, script=%v, history=%v] %s", g.Name, m, g.Scripts[si], h, w.fail.What),
-				replay: map[string]any{"group": g.Name, "max_batch_size": m, "compression": g.Compress, "script": fmt.Sprint(g.Scripts[si]), "history": h, "trace": w.trace}, len: len(h)}
+				replay: map[string]any{"group": g.Name, "max_batch_size": m, "compression": g.Compress, "script": fmt.Sprint(g.Scripts[si]), "answers": g.Scripts[si], "history": h, "trace": w.trace}, len: len(h)}
 		}
 		return w
+	}
+	w.finalCensus()
+	for k, n := range w.census {
+		x.r.Add(k, n)
 	}
 	lab := w.label()
 	x.r.Distinct("distinct_outcomes", lab)
@@ -279,24 +283,34 @@ func sortStrings(s []string) {
 	}
 }
 
-// calibrate measures the per-member overhead from the real encoder (one event with a str32 pad).
+// calibrate measures the per-member overhead from the real encoder (one event with a str32 pad). The probe is
+// flushed by Stop() as well, so the measurement does not depend on how (or whether) a full batch is dispatched;
+// if the probe never reaches the wire the documented wire format is assumed and the size groups speak for themselves.
 func calibrate() {
 	memberOverhead = 0
+	calibrated = false
 	const probe = 70000
 	w := newWorld(1, false, nil)
 	w.enqueue(dests["A"], probe) // padFor(probe) = probe bytes of pad while memberOverhead = 0
-	if w.fail != nil || len(w.reqs) != 1 || len(w.reqs[0].Events) != 1 {
-		// the size model cannot be calibrated; fall back to the documented wire format and let the oracle speak
-		memberOverhead = 60
-		w.teardown()
-		return
+	if w.fail == nil && len(w.reqs) == 0 {
+		w.stop()
 	}
-	memberOverhead = w.reqs[0].Events[0].WireSize - probe
 	w.teardown()
+	memberOverhead = 66 // {time: ext8(12) , samplerate: int, data: {id, dest, pad: str32}} as encoded today
+	for _, q := range w.reqs {
+		for _, e := range q.Events {
+			if e.ID == "e1" && e.PadLen == probe && e.Problem == "" {
+				memberOverhead = e.WireSize - probe
+				calibrated = true
+			}
+		}
+	}
 	if memberOverhead < 20 || memberOverhead > 200 {
 		ev.Harness("implausible per-event overhead %d", memberOverhead)
 	}
 }
+
+var calibrated bool
 
 // selfCheck: the same history twice must give the identical trace (DESIGN §3), and the barrier must see the
 // dispatcher parked.
